@@ -49,6 +49,17 @@ CLAIMED["C18"] = dict(
     ref="DESIGN.md section 2 (C18)",
     technique="TLA+ spec with fault-injection actions + TLC exhaustive model checking; spec->code replay and TLC trace validation of recorded fault runs")
 
+CLAIMED["C19"] = dict(
+    text="FJMachineDev.tla adds device word / packed-byte reads and writes (program words inside segments, a device-private shadow outside) "
+         "to the machine's IO sub-steps; scripted devices are run on every engine and storage mode and TLC judges the value of every device "
+         "read, the outcome and the final memory (Trace_FJMachineDev). FJScreen.tla models the screen's command decoder one byte per action; "
+         "TLC explores all sequences of <=3 commands over an alphabet of valid and malformed commands (every prefix = truncation) and the real "
+         "InMemoryScreen is compared with the specification's state after every byte at w=16/32/64, attached and unattached.",
+    note="Trusted: FJMachineDev.tla / FJScreen.tla as transcriptions of the documented layouts; TLC; the harness devices. Bounded: device "
+         "scripts of <=6 callbacks x <=3 accesses on seeded images; screen streams of <=3 commands; device addresses inside the width's address space.",
+    ref="DESIGN.md section 2 (C19)",
+    technique="TLA+ specs + TLC: exhaustive exploration of screen command streams with per-byte spec->code comparison; TLC trace validation of recorded device-memory runs on all engines")
+
 NOT_YET = {}
 
 
